@@ -172,7 +172,7 @@ KillServer(S, n, sid) ==
         S1 == Step(S, [St("kill") EXCEPT !.n = n, !.s = sid])
         S2 == IF s.cust # 0 /\ HasCu(S1, s.cust) THEN SetCu(S1, s.cust, [Cu(S1, s.cust) EXCEPT !.srv = DeadRef(sid)])
               ELSE S1
-    IN [S2 EXCEPT !.nodes[n].ot = Append(@, IF nd.ned >= INF THEN INF ELSE nd.ned - s.send),
+    IN [S2 EXCEPT !.nodes[n].ot = Append(@, S.now - s.send),
                   !.nodes[n].srv = RemoveAt(@, SrvIdx(S, n, sid))]
 
 \* detatch_server: credit = exit_date - service_start_date as the code computes it
